@@ -31,8 +31,13 @@ enum Fault {
     /// prefix sent, then silence - and *while* the client is silent (no time has passed yet) another
     /// client connects: the server keeps serving means now, not after the idle timeout
     SilenceMeanwhile,
+    /// the whole stream is sent, the opcode byte of the request containing the offset is corrupted
+    /// to flush / flushq (0x08 / 0x18): with the request's key, extras and value behind such a header
+    /// the frame is not a valid flush, so it is invalid bytes like any other corruption
+    CorruptOpcodeFlush,
+    CorruptOpcodeFlushQ,
 }
-const FAULTS: [Fault; 9] = [
+const FAULTS: [Fault; 11] = [
     Fault::Close,
     Fault::HalfClose,
     Fault::ResetSettled,
@@ -42,6 +47,8 @@ const FAULTS: [Fault; 9] = [
     Fault::ResetBeforeAccept,
     Fault::HalfCloseImmediate,
     Fault::SilenceMeanwhile,
+    Fault::CorruptOpcodeFlush,
+    Fault::CorruptOpcodeFlushQ,
 ];
 
 fn streams() -> Vec<(String, Vec<Req>)> {
@@ -67,6 +74,19 @@ fn streams() -> Vec<(String, Vec<Req>)> {
                 Req::concat(op::APPEND, b"b", b"3", 0).opaque(4),
                 Req::delete(op::DELETEQ, b"c", 0).opaque(5),
                 Req::delta(op::DECR, b"a", 1, 10, 0, 0).opaque(6),
+            ],
+        ),
+        (
+            // key-only requests (get, getk, delete) between stores: one corrupted bit in their opcode
+            // must not turn them into anything that is executed
+            "reads+deletes".to_string(),
+            vec![
+                Req::store(op::SET, b"a", b"1", 1, 0, 0).opaque(1),
+                Req::get(op::GET, b"a").opaque(2),
+                Req::store(op::SET, b"b", b"2", 2, 0, 0).opaque(3),
+                Req::get(op::GETK, b"b").opaque(4),
+                Req::delete(op::DELETE, b"zz", 0).opaque(5),
+                Req::store(op::SET, b"c", b"3", 3, 0, 0).opaque(6),
             ],
         ),
         (
@@ -185,6 +205,21 @@ fn run_case(sname: &str, reqs: &[Req], refs: &(Vec<Content>, Vec<usize>), offset
             let _ = c.step(&w, &b);
             expected_js = vec![victim];
         }
+        Fault::CorruptOpcodeFlush | Fault::CorruptOpcodeFlushQ => {
+            let victim = ends.iter().position(|e| *e > offset).unwrap_or(reqs.len() - 1);
+            let start = if victim == 0 { 0 } else { ends[victim - 1] };
+            let mut b = bytes.clone();
+            if reqs[victim].key.is_empty() || reqs[victim].body_length() > 1024 {
+                // a request without a key would become a well-formed flush, an oversized one an
+                // oversized flush (answered 'too large' and skipped, as C13 demands of every
+                // opcode): corrupt the magic instead
+                b[start] = 0x13;
+            } else {
+                b[start + 1] = if fault == Fault::CorruptOpcodeFlush { 0x08 } else { 0x18 };
+            }
+            let _ = c.step(&w, &b);
+            expected_js = vec![victim];
+        }
         Fault::SilenceMeanwhile => {
             let _ = c.step(&w, &bytes[..offset]);
             let mut third = w.connect()?;
@@ -217,7 +252,7 @@ fn run_case(sname: &str, reqs: &[Req], refs: &(Vec<Content>, Vec<usize>), offset
     // what the faulty client received (when it could still read)
     let (resps, residue) = wire::split_responses(&c.got);
     let mut problem: Option<(String, String)> = None;
-    if matches!(fault, Fault::HalfClose | Fault::HalfCloseImmediate | Fault::Silence | Fault::SilenceMeanwhile | Fault::CorruptMagic) {
+    if matches!(fault, Fault::HalfClose | Fault::HalfCloseImmediate | Fault::Silence | Fault::SilenceMeanwhile | Fault::CorruptMagic | Fault::CorruptOpcodeFlush | Fault::CorruptOpcodeFlushQ) {
         let j = expected_js[0];
         if residue != 0 {
             problem = Some(("responses|residue".into(), format!("{} stray bytes in the response stream", residue)));
@@ -227,7 +262,7 @@ fn run_case(sname: &str, reqs: &[Req], refs: &(Vec<Content>, Vec<usize>), offset
                 format!("{} responses received, expected {} (one per loud completed request)", resps.len(), refs.1[j]),
             ));
         }
-        if !c.eof && (fault == Fault::CorruptMagic || fault == Fault::HalfClose || fault == Fault::HalfCloseImmediate) {
+        if !c.eof && (matches!(fault, Fault::CorruptMagic | Fault::CorruptOpcodeFlush | Fault::CorruptOpcodeFlushQ) || fault == Fault::HalfClose || fault == Fault::HalfCloseImmediate) {
             problem = problem.or(Some((format!("not-closed|{:?}", fault), "the server did not close the connection".into())));
         }
     }
